@@ -206,11 +206,16 @@ CLAIMED = {
          "every symbol and rejects EOS (huffman_tree_correct, eos_rejected; kernel evaluation over all 256 codes), Huffman round trip "
          "for EVERY byte string under every admitting length limit (huffman_roundtrip: bits/bytes with EOS-prefix padding, code "
          "words through the tree, by induction) and string-literal round trip (string_roundtrip: readString consumes exactly what "
-         "appendHpackString wrote, Huffman or raw, and decodeString returns the string); decoder and encoder "
+         "appendHpackString wrote, Huffman or raw, and decodeString returns the string), FIELD round trip (field_roundtrip: for every "
+         "field and every outcome of the encoder's table search the decoder emits exactly that field with its sensitivity and the "
+         "two dynamic tables are identical again; searchTable_spec ties Encoder.searchTable to Decoder.at) and HEADER-BLOCK round "
+         "trip (block_roundtrip: Decoder.Write on the encoder's output for any field list emits the list, no error, nothing held "
+         "back, tables identical), eviction exactness (add_exact, exact_fit_kept); decoder and encoder "
          "are total functions. Model tied to the code by exact differentials on encoder sequences and on the decoder over encoder "
          "output / mutations / random bytes / fragmentations; ORACLES: round trip with identical tables, fragment independence"),
-   note=("PARTIAL: integer, Huffman and string-literal round trips are theorems; the field-level round trip with table synchrony and "
-         "fragment independence are decided by the oracles over generated inputs, not yet by theorems. "
+   note=("PARTIAL: integer, Huffman, string, field and header-block round trips with table synchrony are theorems (for blocks without "
+         "a pending table-size change); round trips across SetMaxDynamicTableSize schedules, the decoder's verdict on arbitrary bytes "
+         "and fragment independence are decided by the oracles over generated inputs, not yet by theorems. "
          "Trusted: Lean kernel + standard axioms (decide +kernel uses kernel evaluation, no extra axioms); translator; harness. The "
          "server links x/net v0.19.0's copy of hpack, not this one. Found and fixed D6 and D12"),
    technique="Lean 4 theorems over a full executable model + regenerated tables + differential with round-trip / fragmentation oracles",
